@@ -115,7 +115,7 @@ class C15(C02):
         h = super().header(rng, tier, index)
         h["variant"] = {"env": {"GIT_AI_VERIF_FLAGS": "decline_fast_path"}}
         h["cfg"]["n_files"] = 3
-        if index == 75 or (tier != "quick" and index % 150 == 75):
+        if index == 5 or (tier != "quick" and index % 150 == 75):
             # one run per quick batch (one in 150 in the thorough tier): the rewritten range touches more files than the
             # 1000-path limit of a pathspec list (the run costs 30-70 s, so it is not drawn more often)
             h["cfg"]["many_files"] = 1001 + (index % 7)
